@@ -19,7 +19,7 @@ import traceback
 
 from . import env, gen
 
-RUN_TIMEOUT = float(os.environ.get("VERIF_RUN_TIMEOUT", "420"))
+RUN_TIMEOUT = float(os.environ.get("VERIF_RUN_TIMEOUT", "900"))
 
 _WARM = False
 
